@@ -463,7 +463,9 @@ func c15run(t *testing.T, cs c15case) *c15obs {
 	tab := c15tables()[cs.Table]
 	synctest.Test(t, func(t *testing.T) {
 		runtime.VerifSetMapRot(true, 0)
-		runtime.VerifSetSelMode(1)
+		// mode 2 = receive cases of a select are polled in source order (the compiler lays receives out backwards): the
+		// scheduler's Run loop sees its quit channel before a pending tick, duty goroutines see a cancelled context first
+		runtime.VerifSetSelMode(2)
 		defer runtime.VerifSetMapRot(false, 0)
 		defer runtime.VerifSetSelMode(0)
 		t0 := time.Now()
@@ -825,12 +827,13 @@ func TestVerifC15(t *testing.T) {
 	log.InitConsoleForT(t, zapcore.AddSync(io.Discard))
 	featureset.EnableForT(t, featureset.SSEReorgDuties) // only consulted by HandleChainReorgEvent
 
+	confirmed := map[string]bool{}
 	judge := func(cs c15case, verbose bool) {
 		o := c15run(t, cs)
 		for _, n := range o.Notes {
 			r.Note("harness: " + n)
 		}
-		if os.Getenv("C15_DETCHECK") != "" {
+		if os.Getenv("C15_DETCHECK") != "" { // debugging aid: execute every script twice and print those whose canonical log differs
 			if a, b := c15describe(cs, o), c15describe(cs, c15run(t, cs)); a != b {
 				fmt.Printf("NONDETERMINISTIC\n%s\n---\n%s\n", a, b)
 			}
@@ -896,6 +899,10 @@ func TestVerifC15(t *testing.T) {
 				continue
 			}
 			done[v.sig] = true
+			if confirmed[v.sig] { // already reported with a replayable script: only count the further case
+				r.Violation(v.sig, "", nil)
+				continue
+			}
 			ok := true
 			for k := 0; k < 3; k++ {
 				v2, _, _ := c15check(cs, c15run(t, cs))
@@ -909,6 +916,7 @@ func TestVerifC15(t *testing.T) {
 				r.Unconfirmed(v.sig)
 				continue
 			}
+			confirmed[v.sig] = true
 			r.Violation(v.sig, v.desc+"\n"+c15describe(cs, o), cs)
 		}
 	}
